@@ -178,4 +178,7 @@ def runLog (c : Ctx) : PS → List Cmd → List String
       | .error _ => []
       | .ok (s', _) => runLog c s' rest)
 
+/-- the log of `optimize_high_level_cmd_stream`: it starts with `lut_state = LUTState()` -/
+def optimizeLog (c : Ctx) (cmds : List Cmd) : List String := "new" :: runLog c {} cmds
+
 end VelaVerif.Model.LutState
